@@ -20,8 +20,8 @@ impl<'l, Data> LoopHandle<'l, Data> {
 //@ rw R9 1 <<source: Some(ref source),>> => <<source: Some(source),>>
 //@ rw R9 1 <<TokenFactory::new(entry_token)>> => <<TokenFactory::new(*entry_token)>>
 //@ rw R10 1 <<self.inner.sources.borrow()>> => <<sources>>
-//@ rw R10 1 <<self.inner.poll.borrow_mut()>> => <<*poll>>
-//@ rw R10 1 <<self .inner .sources_with_additional_lifecycle_events .borrow_mut()>> => <<*extra>>
+//@ rw R10 1 <<self.inner.poll.borrow_mut()>> => <<(*poll)>>
+//@ rw R10 * <<self .inner .sources_with_additional_lifecycle_events .borrow_mut()>> => <<(*extra)>>
 //@ sig
 fn enable_body(&self, sources: &SourceList<'l, Data>, poll: &mut Poll, extra: &mut AdditionalLifecycleEventsSet, token: &RegistrationToken) -> (r: crate::Result<()>)
 //@ spec
@@ -59,8 +59,8 @@ fn enable_body(&self, sources: &SourceList<'l, Data>, poll: &mut Poll, extra: &m
 //@ rw R9 1 <<source: Some(ref source),>> => <<source: Some(source),>>
 //@ rw R9 1 <<TokenFactory::new(entry_token)>> => <<TokenFactory::new(*entry_token)>>
 //@ rw R10 1 <<self.inner.sources.borrow()>> => <<sources>>
-//@ rw R10 1 <<self.inner.poll.borrow_mut()>> => <<*poll>>
-//@ rw R10 1 <<self .inner .sources_with_additional_lifecycle_events .borrow_mut()>> => <<*extra>>
+//@ rw R10 1 <<self.inner.poll.borrow_mut()>> => <<(*poll)>>
+//@ rw R10 * <<self .inner .sources_with_additional_lifecycle_events .borrow_mut()>> => <<(*extra)>>
 //@ sig
 fn update_body(&self, sources: &SourceList<'l, Data>, poll: &mut Poll, extra: &mut AdditionalLifecycleEventsSet, token: &RegistrationToken) -> (r: crate::Result<()>)
 //@ spec
@@ -102,8 +102,8 @@ fn update_body(&self, sources: &SourceList<'l, Data>, poll: &mut Poll, extra: &m
 //@ rw R9 1 <<source: Some(ref source),>> => <<source: Some(source),>>
 //@ rw R9 1 <<same_source_as(entry_token)>> => <<same_source_as(*entry_token)>>
 //@ rw R10 1 <<self.inner.sources.borrow()>> => <<sources>>
-//@ rw R10 1 <<self.inner.poll.borrow_mut()>> => <<*poll>>
-//@ rw R10 1 <<self .inner .sources_with_additional_lifecycle_events .borrow_mut()>> => <<*extra>>
+//@ rw R10 1 <<self.inner.poll.borrow_mut()>> => <<(*poll)>>
+//@ rw R10 * <<self .inner .sources_with_additional_lifecycle_events .borrow_mut()>> => <<(*extra)>>
 //@ sig
 fn disable_body(&self, sources: &SourceList<'l, Data>, poll: &mut Poll, extra: &mut AdditionalLifecycleEventsSet, token: &RegistrationToken) -> (r: crate::Result<()>)
 //@ spec
@@ -135,8 +135,8 @@ fn disable_body(&self, sources: &SourceList<'l, Data>, poll: &mut Poll, extra: &
 //@ rw R9 1 <<if let Ok(&mut SourceEntry {>> => <<if let Ok(SourceEntry {>>
 //@ rw R9 1 <<ref mut source,>> => <<source,>>
 //@ rw R10 1 <<self.inner.sources.borrow_mut()>> => <<sources>>
-//@ rw R10 1 <<self.inner.poll.borrow_mut()>> => <<*poll>>
-//@ rw R10 1 <<self .inner .sources_with_additional_lifecycle_events .borrow_mut()>> => <<*extra>>
+//@ rw R10 1 <<self.inner.poll.borrow_mut()>> => <<(*poll)>>
+//@ rw R10 * <<self .inner .sources_with_additional_lifecycle_events .borrow_mut()>> => <<(*extra)>>
 //@ sig
 fn remove_body(&self, sources: &mut SourceList<'l, Data>, poll: &mut Poll, extra: &mut AdditionalLifecycleEventsSet, token: RegistrationToken)
 //@ spec
@@ -157,6 +157,11 @@ fn remove_body(&self, sources: &mut SourceList<'l, Data>, poll: &mut Poll, extra
                 &&& forall|k: int| 0 <= k < old(sources)@.len() && k != i ==> #[trigger] final(sources)@[k] == old(sources)@[k]
                 // ... and the dispatcher taken out of it has been asked to unregister under exactly this token
                 &&& old(sources)@[i].disp() matches Some(d) ==> d.w_unregister_called(token)
+                // C14/C15: the slot is vacated whatever the unregistration said, so the lifecycle entry must not outlive it:
+                // either the dispatcher confirmed the unregistration (then the dispatcher layer has dealt with its entry), or
+                // it deferred it (the source is being dispatched: the per-event body finishes the job), or -- if it FAILED --
+                // the entry has been dropped here; otherwise the next dispatch would reach `unreachable!()` (defect F11)
+                &&& old(sources)@[i].disp() matches Some(d) ==> (!final(extra)@.contains(token) || d.w_unregistered(token) || d.w_deferred())
                 &&& old(sources)@[i].vacant() ==> final(extra)@ == old(extra)@
             },
         },
